@@ -823,7 +823,8 @@ def check_naming(sess: Session, run, key_prefix, mode="full"):
             findings.append({"key": key, "what": f"output {name}: neither an anchor nor a labelled constant combinator exists", "kind": "missing", "closed": True})
             continue
         decl = next((st for st in sess.stmts if st[0] in ("sig", "bun") and st[1] == name), None)
-        is_alias = decl is not None and decl[2][0] == "v"
+        # aliases and function results are produced by a combinator that carries the ORIGINAL name
+        is_alias = decl is not None and decl[2][0] in ("v", "call")
         if anchors and not is_alias:
             # the single combinator feeding the anchor's network is "the combinator producing it"
             a = anchors[0]
